@@ -120,6 +120,14 @@ class C02Mon(Monitor):
         if sub.kind == "flip":
             return
         m = w.m
+        try:
+            self._state_checks(w, m)
+        except Violation:
+            raise
+        except Exception as e:  # noqa  (a comparison of two accepted same-side orders must be defined)
+            raise Violation("C02.comparator_raises", "comparing two accepted orders of one side raised | %r" % (e,))
+
+    def _state_checks(self, w, m):
         for bk in (m.buy_order_book, m.sell_order_book):
             q = list(bk.priority_queue)
             if not q:
